@@ -406,5 +406,13 @@ Proof.
                  destruct (fires_for k o) eqn:F; [exfalso; pose proof (Hb o H1 F); lia | reflexivity] end).
     all: try (eapply (Q i); [lia | eassumption | eexists; eassumption | eassumption]).
     all: try (eapply (Q n); [lia | eassumption | eexists; eassumption | eassumption]).
-    all: idtac "QREM". Show.
+    all: try (exfalso; unfold noresched, resched_on in Ha; subst; rewrite Z.eqb_refl in Ha; discriminate).
+    all: cbn [fires_for]; match goal with |- (?a =? ?b) = false => destruct (Z.eqb_spec a b); [|reflexivity] end;
+         exfalso; apply n; apply U; solve [assumption | lia].
+  - (* deadline *)
+    intros i. rewrite step_log, new_obs_delta.
+    destruct e; cbn [is_issue noresched resched_on] in *; try specialize (Hnew eq_refl); unfold delta; cbn zeta; unf; proj; brk; proj;
+      intros Hi Oi; cbn [app];
+      try (destruct (D i ltac:(lia) Oi) as (t0 & tau0 & D1 & D2 & D3); exists t0, tau0; cbn [In]; tauto).
+    all: idtac "DLREM". Show.
 Abort.
